@@ -24,7 +24,7 @@ static size_t ref_der(const struct tval *v, uint8_t *out, size_t cap) {
     uint8_t body[12]; struct rbuf b = { body, 0, sizeof(body) };
     for(int i = 0; i < 2; i++) if(i < v->n) der_int_tagged(&b, CL_UNIV, 2, v->e[i]);
     struct rbuf o = { out, 0, cap };
-    der_tag(&o, CL_UNIV | CONSTRUCTED, 16); der_len(&o, b.n); rb_puts(&o, body, b.n);
+    x_constructed(&o, CL_UNIV, 16, body, b.n);
     return o.n;
 }
 static size_t ref_uper(const struct tval *v, uint8_t *out, size_t cap) {
